@@ -113,6 +113,8 @@ package ipfslog
 //@   ensures [appended-entry-time-dominates-heads] err == nil ==> forall k string :: old(has(om(l.heads).values, k)) ==> etime(result0) > etime(old(om(l.heads).values[k]))
 //@   ensures [skip-references-are-logarithmic-in-pointer-count] err == nil && opts != nil && opts.PointerCount >= 1 ==> len(result0.Refs) <= ilog2(opts.PointerCount) + 2
 //@   ensures [skip-references-default-pointer-count] err == nil && (opts == nil || opts.PointerCount == 0) ==> len(result0.Refs) <= 2
+//@   ensures [skip-references-are-not-predecessors] err == nil ==> forall i int, j int :: 0 <= i && i < len(result0.Refs) && 0 <= j && j < len(result0.Next) ==> result0.Refs[i] != result0.Next[j]
+//@   ensures [skip-references-are-entries-of-the-log] err == nil ==> forall i int, k string :: 0 <= i && i < len(result0.Refs) && k == str(result0.Refs[i]) ==> old(has(om(l.Entries).values, k)) || old(has(om(l.heads).values, k))
 //@   ensures [appended-entry-is-the-single-head] err == nil ==> forall k string :: has(om(l.heads).values, k) <==> k == ehash(result0)
 //@   ensures [appended-entry-is-in-the-log] err == nil ==> inMap(l.Entries, result0) && inMap(l.heads, result0)
 //@   ensures [append-keeps-every-entry] forall k string :: old(has(om(l.Entries).values, k)) ==> has(om(l.Entries).values, k) && (k != ehash(result0) || err != nil ==> om(l.Entries).values[k] == old(om(l.Entries).values[k]))
@@ -129,9 +131,12 @@ package ipfslog
 //@     invariant [every-head-is-a-sorted-head] forall k string :: old(has(om(l.heads).values, k)) ==> exists j int :: 0 <= j && j < len($r) && ehash($r[j]) == k
 //@   loop 1
 //@     invariant fresh(refs) && off(refs) == 0 && validSlice(references) && ref(refs) != ref(next) && len(refs) <= $k
+//@     invariant forall j int, q int :: 0 <= j && j < len(refs) && 0 <= q && q < len(next) ==> refs[j] != next[q]
+//@     invariant forall j int, k string :: 0 <= j && j < len(refs) && k == str(refs[j]) ==> old(has(om(l.Entries).values, k)) || old(has(om(l.heads).values, k))
+//@     invariant forall m int, k string :: 0 <= m && m < len(references) && k == ehash(references[m]) ==> old(has(om(l.Entries).values, k)) || old(has(om(l.heads).values, k))
 //@     loopkeeps elems(next)
 //@   loop 2
-//@     invariant true
+//@     invariant forall q int :: 0 <= q && q < $k ==> r.Hash != next[q]
 //@   loop 3
 //@     invariant isOM(l.Next) && omInv(om(l.Entries)) && sepMaps(l)
 //@     invariant forall k string :: has(om(l.Entries).values, k) == has(old(om(l.Entries).values), k) || k == ehash(e)
